@@ -124,8 +124,10 @@ def range_ok(u):
         return False
 
 
-def reparse(u, text):
-    """'same' or a description of how Unit(text) fails to denote `u`"""
+def reparse(u, text, tol=1e-12):
+    """'same' or a description of how Unit(text) fails to denote `u`; `tol`: relative rounding the
+    arithmetic that built `u` may have accumulated in base_value (None: beyond any fixed tolerance,
+    scale and == are then not compared — "up to rounding" cannot be decided)"""
     try:
         v = Unit(text)
     except BaseException as e:  # noqa: BLE001
@@ -135,8 +137,8 @@ def reparse(u, text):
         bad.append("dimensions")
     if not same_float(float(v.base_offset), float(u.base_offset)):
         bad.append("offset")
-    inrange = range_ok(u)
-    if inrange and not same_float(float(v.base_value), float(u.base_value)):
+    inrange = range_ok(u) and tol is not None
+    if inrange and not (same_float(float(v.base_value), float(u.base_value)) or math.isclose(float(v.base_value), float(u.base_value), rel_tol=tol)):
         bad.append("scale")
     if inrange and not math.isnan(u.base_value) and not (v == u):
         bad.append("eq")
@@ -184,7 +186,7 @@ def escape_trigger(s):
     return "other"
 
 
-def describe(u):
+def describe(u, tol=1e-12):
     """everything the parent needs to know about a successfully built unit"""
     d = {"r": "ok", "kind": unit_kind(u), "expr": exact(u.expr), "coeff1": coeff_free(u.expr)}
     try:
@@ -193,8 +195,9 @@ def describe(u):
     except BaseException as e:  # noqa: BLE001
         d["print_exc"] = type(e).__name__
         return d
-    d["rt_str"] = reparse(u, d["str"])
-    d["rt_repr"] = reparse(u, d["repr"])
+    d["rt_str"] = reparse(u, d["str"], tol)
+    d["rt_repr"] = reparse(u, d["repr"], tol)
+    d["tol"] = tol
     d["xs_str"] = expr_same(u, d["str"])
     d["xs_repr"] = expr_same(u, d["repr"])
     return d
@@ -275,7 +278,16 @@ def do_arith(prog):
                 raise ValueError(op)
     except BaseException as e:  # noqa: BLE001
         return {"r": "arith-raised", "exc": type(e).__name__}
-    d = describe(u)
+    # rounding budget of base_value: x**p turns a relative error e into |p|*e (+ one rounding), products add
+    err = 0.0
+    for op, arg in prog:
+        if op in ("powq", "powf", "sqrt"):
+            p = 0.5 if op == "sqrt" else float(rat(arg)) if op == "powq" else float(arg)
+            err = abs(p) * err + 2.3e-16
+        elif op in ("mul", "div", "rdiv", "mulpow", "divpow"):
+            err += 4.6e-16
+    tol = max(1e-12, 16 * err)
+    d = describe(u, tol if tol <= 1e-9 else None)
     d["operands"] = operands
     return d
 
